@@ -71,6 +71,39 @@ def iso_keywords_from_coq(verif: str) -> typing.Dict[str, typing.List[str]]:
     return out
 
 
+# free text is the one input channel that reaches the output unstropped: DSDL comments become doc comments of the generated C++
+DOC_POOL = ['ends with backslash \\', 'what??/', 'tri ??= ??( ??) ??<', 'close */ open /* both', '"""', "'''", '\\N{BULLET} \\u1234 \\x', '{{ 7*7 }} {% raw %} {# c #}',
+            'tab\there', 'x' * 300, '#include <nope.h>', '#define X 1', '// nested // comment', '\\', '??/', 'a \\ b', '@sealed', 'uint8 not_a_field',
+            '<b>html</b> & &amp; "quoted"', '%s %d %n', '$(rm -rf) `x`', 'trailing spaces   ', 'plain documentation text.']
+
+
+def generated_c_names(repo: str) -> typing.List[str]:
+    """names the C templates THEMSELVES append to a type's reference name (per-type macros `<T>_EXTENT_BYTES_`, functions `<T>_serialize_`):
+    every `_NAME_` literal following `full_reference_name }}` in lang/c/templates/*.j2"""
+    d = os.path.join(repo, 'src', 'nunavut', 'lang', 'c', 'templates')
+    out = set()
+    for f in sorted(os.listdir(d)):
+        if f.endswith('.j2'):
+            txt = open(os.path.join(d, f), encoding='utf-8').read()
+            out.update(re.findall(r'\}\}_([A-Za-z][A-Za-z0-9_]*_)(?![A-Za-z0-9_{])', txt))
+    return sorted(n for n in out if n not in ('is_', 'select_'))
+
+
+def generated_c_field_names(repo: str) -> typing.Tuple[typing.List[str], typing.List[str]]:
+    """(suffixes, prefixes) the C templates put around a FIELD name: `<T>_<f>_ARRAY_CAPACITY_`, `<T>_is_<f>_`, `<T>_select_<f>_`"""
+    d = os.path.join(repo, 'src', 'nunavut', 'lang', 'c', 'templates')
+    suf, pre = set(), set()
+    for f in sorted(os.listdir(d)):
+        if f.endswith('.j2'):
+            txt = open(os.path.join(d, f), encoding='utf-8').read()
+            suf.update(re.findall(r'full_reference_name\s*\}\}_\{\{[^}]*\}\}_([A-Z][A-Z0-9_]*_)\b', txt))
+            pre.update(re.findall(r'full_reference_name\s*\}\}_([a-z]+_)\{\{', txt))
+    return sorted(suf), sorted(pre)
+
+
+PY_SUPPORT_ROOTS = ['nunavut_support', 'numpy', 'pydsdl']      # a Python ROOT package of that name shadows what the generated modules import
+
+
 def load_properties(repo: str) -> dict:
     with open(os.path.join(repo, 'src', 'nunavut', 'lang', 'properties.yaml'), encoding='utf-8') as f:
         return yaml.safe_load(f)
@@ -95,7 +128,8 @@ def pools(repo: str) -> typing.Dict[str, typing.List[str]]:
     coq = iso_keywords_from_coq(os.path.dirname(os.path.dirname(os.path.dirname(os.path.abspath(__file__)))))
     out['iso_keywords'] = sorted({w for w in list(ISO_C11_KEYWORDS) + list(ISO_CPP20_KEYWORDS) + [w for k in coq for w in coq[k]]
                                   if dsdl_ok(w)})
-    out['pattern'] = [w for w in PATTERN_NAMES if dsdl_ok(w)]
+    out['generated'] = [w for w in generated_c_names(repo) if dsdl_ok(w)]
+    out['pattern'] = [w for w in PATTERN_NAMES + PY_SUPPORT_ROOTS if dsdl_ok(w)]
     out['plain'] = list(PLAIN)
     return out
 
@@ -144,7 +178,7 @@ class Gen:
         r = self.rng
         for _ in range(200):
             if r.random() < self.hostile:
-                pool = r.choice(['c_reserved', 'iso_keywords', 'py_reserved', 'pattern', 'pattern'])
+                pool = r.choice(['c_reserved', 'iso_keywords', 'py_reserved', 'pattern', 'pattern'] + (['generated'] if kind in ('attr', 'const') and self.pools.get('generated') else []))
             else:
                 pool = 'plain'
             n = r.choice(self.pools[pool])
@@ -227,13 +261,18 @@ class Gen:
                 total += 64
             ft, fb = self.field_type(deps, wide, union)
             total += fb
-            lines.append('%s %s' % (ft, n))
+            if r.random() < 0.2:
+                lines.append('%s %s  # %s' % (ft, n, r.choice(DOC_POOL)))
+                if r.random() < 0.5:
+                    lines.append('# %s' % r.choice(DOC_POOL))
+            else:
+                lines.append('%s %s' % (ft, n))
         nconst = r.randrange(0, 4) if shape != 'consts' else r.randrange(6, 14)
         for _ in range(nconst):
             t, v = r.choice(CONSTANTS)
             n = self.name(names, 'const')
             names.append(n)
-            lines.append('%s %s = %s' % (t, n, v))
+            lines.append('%s %s = %s' % (t, n, v) + ('  # %s' % r.choice(DOC_POOL) if r.random() < 0.15 else ''))
         total = (total + 7) // 8
         if r.random() < 0.6:
             lines.append('@sealed')
@@ -246,7 +285,7 @@ class Gen:
         r = self.rng
         kind = r.choice(['struct', 'struct', 'struct', 'union', 'service', 'service'])
         shape = r.choice(['normal', 'normal', 'empty', 'padding', 'wide', 'consts'])
-        head = '@deprecated\n' if deprecated else ''
+        head = ''.join('# %s\n' % r.choice(DOC_POOL) for _ in range(r.choice([0, 0, 1, 3]))) + ('@deprecated\n' if deprecated else '')
         if kind == 'service':
             b1, _ = self.body(deps, shape, r.random() < 0.4)
             b2, bound = self.body(deps, r.choice(['normal', 'empty', 'padding', 'wide']), r.random() < 0.4)
@@ -339,6 +378,9 @@ def corpus() -> typing.List[dict]:
         'BoolSvcEmpty.1.0.dsdl': '@sealed\n---\nbool[<=8] bits\nuint8 x\n@extent 32 * 8\n',
         'BoolDelim.1.0.dsdl': 'bool[<=4] a\nuint8 b\n@extent 32 * 8\n',
         'IntOnly.1.0.dsdl': 'int32[<=3] a\nuint64 b\nint7 c\nregr.BoolDelim.1.0[<=2] d\n@sealed\n',
+        'DocHostile.1.0.dsdl': ''.join('# %s\n' % d for d in DOC_POOL if '\t' not in d) + 'uint8 a  # field doc ends with backslash \\\n# and goes on ??/\n'
+                               'uint8 K = 1  # constant doc \\\n@sealed\n',
+        'DocUnion.1.0.dsdl': '# union doc */ \\\n@union\nuint8 a  # opt ??/\nuint16 b  # opt \\\n@sealed\n---\n# response doc \\\nuint8 r  # \\\n@sealed\n',
         'Old.1.0.dsdl': '@deprecated\nuint8 x\n@sealed\n',
         'Older.1.0.dsdl': '@deprecated\nregr.Old.1.0 o\n@sealed\n',
         '300.Svc.1.0.dsdl': 'uint8 a\n@sealed\n---\nregr.Un.1.0 u\n@extent 1024 * 8\n',
@@ -391,6 +433,12 @@ def witness_corpus() -> typing.List[dict]:
         one('tolower', {'T.1.0.dsdl': 'uint8 x\n@sealed\n'}),
         # ... and a root spelled std: its sub-namespaces are declared inside ::std and clash with library members (std::isalpha)
         one('std', {'isalpha/std.1.0.dsdl': '@sealed\n---\n@union\nuint8 tolower\nint16[8] delta\n@extent 115 * 8\n'}),
+        # F-C06-C-GENERATED-NAME: constants / fields named like macros and functions the C templates generate for the same type
+        one('gnm', {'C.1.0.dsdl': 'uint8 EXTENT_BYTES_ = 3\nuint8[<=3] a\nuint8 a_ARRAY_CAPACITY_ = 1\n@sealed\n', 'D.1.0.dsdl': 'uint8 serialize_ = 3\n@sealed\n',
+                    'U.1.0.dsdl': '@union\nuint8 a\nuint16 is_a_\nuint8 UNION_OPTION_COUNT_ = 9\n@sealed\n'}),
+        # F-C06-PY-MODULE-SHADOW, support/third-party names as ROOT
+        one('nunavut_support', {'T.1.0.dsdl': 'uint8 a\n@sealed\n'}),
+        one('numpy', {'T.1.0.dsdl': 'uint8 a\n@sealed\n'}),
         # F-C06-PY-MODULE-SHADOW: a LOOKUP root named like a stdlib module breaks every module generated into the same directory
         one('shd', {'T.1.0.dsdl': 'string.U.1.0 u\n@sealed\n'}, {'string': {'U.1.0.dsdl': 'uint8 v\n@sealed\n'}}),
     ]
